@@ -1,3 +1,606 @@
 (* C05/Proofs.v — lemmas about the model in Model.v *)
 From OV Require Import Common.Base C05.Model.
 Open Scope Z_scope.
+
+Ltac brk := repeat match goal with
+  | |- context [if ?b then _ else _] => let E := fresh "E" in destruct b eqn:E
+  end.
+Ltac unfold_events :=
+  unfold step, input, up, down, open, close, timeout, rcrEvent, rcaEvent, rcnEvent, rtrEvent, rtaEvent,
+         rxjEvent, rucEvent, rxrEvent, reply.
+
+(* ------------------------------------------------------------ 1. the table *)
+
+Lemma table_repaired c f e : conformsb f e (step c Repaired f e) = true.
+Proof.
+  destruct f as [s i r fl l a o]; destruct e as [| | | | |code id k dlen].
+  1-4: destruct s; reflexivity.
+  - unfold conformsb, classify, step, timeout; cbn. destruct (r >? 0); destruct s; reflexivity.
+  - unfold conformsb, classify; unfold_events; cbn.
+    destruct (code_of code); destruct s; try destruct k; cbn; brk; cbn in *; try discriminate; try reflexivity.
+Qed.
+
+(* today's code agrees with the table in every cell that is not listed in bad_cells *)
+Lemma table_defective_off_bad c f e :
+  conformsb f e (step c Defective f e) = true \/
+  exists re, classify f e = Some re /\ is_bad_cell (st f) re = true.
+Proof.
+  destruct f as [s i r fl l a o]; destruct e as [| | | | |code id k dlen].
+  1,2,4: left; destruct s; reflexivity.
+  - destruct s; try (left; reflexivity). right; exists ROpen; split; reflexivity.
+  - left. unfold conformsb, classify, step, timeout; cbn. destruct (r >? 0); destruct s; reflexivity.
+  - unfold conformsb, classify; unfold_events; cbn.
+    destruct (code_of code); destruct s; try destruct k; cbn; brk; cbn in *; try discriminate;
+      try (left; reflexivity); right; eexists; split; reflexivity.
+Qed.
+
+(* ------------------------------------------------------------ 2. counter and identifiers *)
+
+Lemma counter_ok c v f e :
+  restart (step c v f e) = counter_after c f e (outs (step c v f e)).
+Proof.
+  destruct f as [s i r fl l a o]; destruct e as [| | | | |code id k dlen].
+  1-4: destruct s, v; reflexivity.
+  - unfold counter_after, step, timeout; cbn. destruct (r >? 0); destruct s; reflexivity.
+  - unfold counter_after; unfold_events; cbn.
+    destruct (code_of code); destruct s; try destruct k; try destruct v; cbn; brk; cbn in *;
+      try discriminate; try reflexivity.
+Qed.
+
+Lemma ids_ok c v f e : ids_okb f e (outs (step c v f e)) = true.
+Proof.
+  destruct f as [s i r fl l a o]; destruct e as [| | | | |code id k dlen].
+  1-4: destruct s, v; cbn; rewrite ?Z.eqb_refl; reflexivity.
+  - unfold ids_okb, step, timeout; cbn. destruct (r >? 0); destruct s; cbn; rewrite ?Z.eqb_refl; reflexivity.
+  - unfold ids_okb; unfold_events; cbn.
+    destruct (code_of code); destruct s; try destruct k; try destruct v; cbn; brk; cbn in *;
+      rewrite ?Z.eqb_refl; try discriminate; try reflexivity.
+Qed.
+
+(* ------------------------------------------------------------ 3. stale acknowledgements *)
+
+Definition is_ack_code (code : Z) : bool :=
+  match code_of code with KConfAck | KConfNak | KConfRej => true | _ => false end.
+
+Lemma stale_ignored c v f code id k dlen :
+  is_ack_code code = true -> id <> lastReq f ->
+  step c v f (EInput code id k dlen) = clear_out f.
+Proof.
+  intros H N. apply Z.eqb_neq in N. unfold is_ack_code in H.
+  unfold step, input, rcaEvent, rcnEvent.
+  destruct (code_of code); try discriminate; cbn; rewrite N; reflexivity.
+Qed.
+
+Lemma current_ack_not_ignored_nonvac :
+  st (step default_cfg Repaired (run default_cfg Repaired init [EOpen; EUp]) (EInput 2 1 CGood 0)) = AckRcvd /\
+  step default_cfg Repaired (run default_cfg Repaired init [EOpen; EUp]) (EInput 2 2 CGood 0)
+    = clear_out (run default_cfg Repaired init [EOpen; EUp]).
+Proof. split; vm_compute; reflexivity. Qed.
+
+(* lastReq is the identifier of the last Configure-Request in the trace *)
+Fixpoint last_scr (acc : option Z) (t : list Item) : option Z :=
+  match t with
+  | [] => acc
+  | IAct (Scr i) :: t => last_scr (Some i) t
+  | _ :: t => last_scr acc t
+  end.
+
+Lemma last_scr_app acc a b : last_scr acc (a ++ b) = last_scr (last_scr acc a) b.
+Proof. revert acc; induction a as [|x a IH]; intros acc; [reflexivity|]. destruct x as [e|[]]; cbn; apply IH. Qed.
+
+Lemma step_last_scr c v f e acc :
+  (acc = None \/ acc = Some (lastReq f)) ->
+  let f' := step c v f e in
+  let acc' := last_scr acc (IEv e :: map IAct (outs f')) in
+  (acc' = None /\ acc = None /\ lastReq f' = lastReq f) \/ acc' = Some (lastReq f').
+Proof.
+  intros H; destruct f as [s i r fl l a o]; cbn in H.
+  destruct e as [| | | | |code id k dlen].
+  1-4: destruct s, v; cbn; destruct H as [->| ->]; auto.
+  - unfold step, timeout; cbn. destruct (r >? 0); destruct s; cbn; destruct H as [->| ->]; auto.
+  - unfold_events; cbn.
+    destruct (code_of code); destruct s; try destruct k; try destruct v; cbn; brk; cbn in *;
+      try discriminate; destruct H as [->| ->]; auto.
+Qed.
+
+Lemma last_scr_some_not_none t : forall a, last_scr (Some a) t <> None.
+Proof. induction t as [|x t IHt]; intros a0; cbn; [discriminate|]. destruct x as [e0|[]]; apply IHt. Qed.
+
+Lemma trace_last_scr c v es : forall f acc,
+  (acc = None \/ acc = Some (lastReq f)) ->
+  (last_scr acc (trace c v f es) = None /\ lastReq (run c v f es) = lastReq f) \/
+  last_scr acc (trace c v f es) = Some (lastReq (run c v f es)).
+Proof.
+  induction es as [|e es IH]; intros f acc H.
+  - cbn. destruct H as [->| ->]; auto.
+  - cbn [trace run].
+    change (IEv e :: map IAct (outs (step c v f e)) ++ trace c v (step c v f e) es)
+      with ((IEv e :: map IAct (outs (step c v f e))) ++ trace c v (step c v f e) es).
+    rewrite last_scr_app.
+    pose proof (step_last_scr c v f e acc H) as S; cbn zeta in S.
+    destruct S as [(A & B & C)|A]; rewrite A.
+    + destruct (IH (step c v f e) None (or_introl eq_refl)) as [(X & Y)|X].
+      * left; split; [exact X|congruence].
+      * right; exact X.
+    + destruct (IH (step c v f e) _ (or_intror eq_refl)) as [(X & Y)|X].
+      * exfalso; exact (last_scr_some_not_none _ _ X).
+      * right; exact X.
+Qed.
+
+Lemma lastReq_is_last_scr c v es :
+  match last_scr None (trace c v init es) with
+  | Some i => lastReq (run c v init es) = i
+  | None => lastReq (run c v init es) = 0
+  end.
+Proof.
+  destruct (trace_last_scr c v es init None (or_introl eq_refl)) as [(A & B)|A]; rewrite A; [exact B|reflexivity].
+Qed.
+
+(* ------------------------------------------------------------ 4. tlu / tld alternate *)
+
+Fixpoint alt_acts (up : bool) (l : list Act) : option bool :=
+  match l with
+  | [] => Some up
+  | Tlu :: l => if up then None else alt_acts true l
+  | Tld :: l => if up then alt_acts false l else None
+  | _ :: l => alt_acts up l
+  end.
+
+Lemma alternates_acts acts : forall up rest,
+  alternates up (map IAct acts ++ rest) =
+  match alt_acts up acts with Some up' => alternates up' rest | None => false end.
+Proof.
+  induction acts as [|a acts IH]; intros up rest; [reflexivity|].
+  destruct a; cbn; try apply IH; destruct up; cbn; try reflexivity; apply IH.
+Qed.
+
+Definition is_opened (s : St) : bool := st_eqb s Opened.
+
+Lemma step_alt c v f e :
+  alt_acts (is_opened (st f)) (outs (step c v f e)) = Some (is_opened (st (step c v f e))).
+Proof.
+  destruct f as [s i r fl l a o]; destruct e as [| | | | |code id k dlen].
+  1-4: destruct s, v; reflexivity.
+  - unfold step, timeout; cbn. destruct (r >? 0); destruct s; reflexivity.
+  - unfold_events; cbn.
+    destruct (code_of code); destruct s; try destruct k; try destruct v; cbn; brk; cbn in *;
+      try discriminate; try reflexivity.
+Qed.
+
+Lemma alternates_from c v es : forall f,
+  alternates (is_opened (st f)) (trace c v f es) = true.
+Proof.
+  induction es as [|e es IH]; intros f; [reflexivity|].
+  cbn [trace]. change (alternates (is_opened (st f)) (IEv e :: ?t)) with (alternates (is_opened (st f)) t).
+  rewrite alternates_acts, step_alt. apply IH.
+Qed.
+
+Lemma alternates_init c v es : alternates false (trace c v init es) = true.
+Proof. exact (alternates_from c v es init). Qed.
+
+(* a layer is "up" (tlu outstanding) exactly in Opened *)
+Fixpoint up_after (up : bool) (t : list Item) : bool :=
+  match t with
+  | [] => up
+  | IAct Tlu :: t => up_after true t
+  | IAct Tld :: t => up_after false t
+  | _ :: t => up_after up t
+  end.
+Lemma up_after_acts acts : forall up rest b,
+  alt_acts up acts = Some b -> up_after up (map IAct acts ++ rest) = up_after b rest.
+Proof.
+  induction acts as [|a acts IH]; intros up rest b H; cbn in *; [congruence|].
+  destruct a; cbn; try (apply IH; exact H); destruct up; try discriminate; apply IH; exact H.
+Qed.
+Lemma up_iff_opened_from c v es : forall f,
+  up_after (is_opened (st f)) (trace c v f es) = is_opened (st (run c v f es)).
+Proof.
+  induction es as [|e es IH]; intros f; [reflexivity|].
+  cbn [trace run]. change (up_after (is_opened (st f)) (IEv e :: ?t)) with (up_after (is_opened (st f)) t).
+  rewrite (up_after_acts _ _ _ _ (step_alt c v f e)). apply IH.
+Qed.
+
+(* ------------------------------------------------------------ 5. tlu needs both acknowledgements *)
+
+Lemma mon_run_app s a : forall m b,
+  mon_run s m (a ++ b) = match mon_run s m a with Some m' => mon_run s m' b | None => None end.
+Proof.
+  induction a as [|x a IH]; intros m b; [reflexivity|]. cbn.
+  destruct (mon_item s m x); [apply IH|reflexivity].
+Qed.
+
+Definition negotiating (s : St) : bool :=
+  match s with ReqSent | AckRcvd | AckSent | Opened => true | _ => false end.
+
+Definition MInv (m : mon) (f : fsm) : Prop :=
+  (negotiating (st f) = true -> m_lastScr m = Some (lastReq f)) /\
+  (st f = AckRcvd \/ st f = Opened -> m_ours m = true) /\
+  (st f = AckSent \/ st f = Opened -> m_theirs m = true).
+
+Ltac minv_solve :=
+  unfold MInv; cbn; repeat split; intros;
+  repeat match goal with
+         | H : _ \/ _ |- _ => destruct H
+         | H : _ /\ _ |- _ => destruct H
+         end; try discriminate; try reflexivity; auto.
+
+Ltac use_minv H1 H2 H3 :=
+  try (rewrite H1 by reflexivity); try (rewrite H2 by (auto; fail)); try (rewrite H3 by (auto; fail)).
+
+Lemma mon_step_ok strict c v f e m :
+  (strict = true -> v = Repaired) ->
+  MInv m f ->
+  exists m', mon_run strict m (IEv e :: map IAct (outs (step c v f e))) = Some m' /\
+             MInv m' (step c v f e).
+Proof.
+  intros SV (H1 & H2 & H3).
+  destruct m as [ls ou lr th]; destruct f as [s i r fl l a o]; cbn in H1, H2, H3.
+  destruct e as [| | | | |code id k dlen].
+  1-4: destruct s, v; cbn; eexists; (split; [reflexivity|]); minv_solve.
+  - unfold step, timeout; cbn. destruct (r >? 0); destruct s; cbn; eexists; (split; [reflexivity|]); minv_solve.
+  - assert (SV' : strict = false \/ v = Repaired) by (destruct strict; auto).
+    unfold_events; cbn.
+    destruct (code_of code) eqn:EC; cbn; rewrite ?EC; cbn.
+    + (* ConfReq *)
+      destruct s; destruct k; cbn; rewrite ?Z.eqb_refl; cbn;
+        try (rewrite H2 by auto); cbn;
+        try (eexists; (split; [reflexivity|]); minv_solve; fail).
+    + (* ConfAck *)
+      destruct (id =? l) eqn:E; cbn.
+      * apply Z.eqb_eq in E; subst id.
+        destruct s; try destruct v; cbn; try (rewrite H1 by reflexivity); cbn; rewrite ?Z.eqb_refl; cbn;
+          try (rewrite H3 by auto); cbn;
+          try (destruct (oz_eqb ls l)); cbn;
+          try (eexists; (split; [reflexivity|]); minv_solve; fail).
+      * destruct (oz_eqb ls id) eqn:F.
+        -- destruct s; cbn in *; try (eexists; (split; [reflexivity|]); minv_solve; fail);
+             (rewrite H1 in F by reflexivity; cbn in F; rewrite Z.eqb_sym in F; congruence).
+        -- eexists; (split; [reflexivity|]); minv_solve.
+    + destruct (id =? l) eqn:E; cbn;
+        destruct s; try destruct v; cbn; eexists; (split; [reflexivity|]); minv_solve.
+    + destruct (id =? l) eqn:E; cbn;
+        destruct s; try destruct v; cbn; eexists; (split; [reflexivity|]); minv_solve.
+    + (* TermReq *)
+      destruct SV' as [-> | ->]; destruct s; try destruct v; try destruct strict; cbn;
+        eexists; (split; [reflexivity|]); minv_solve.
+    + (* TermAck *)
+      destruct SV' as [-> | ->]; destruct s; try destruct v; try destruct strict; cbn;
+        eexists; (split; [reflexivity|]); minv_solve.
+    + destruct s; try destruct v; cbn; eexists; (split; [reflexivity|]); minv_solve.
+    + eexists; (split; [reflexivity|]); minv_solve.
+    + unfold st_eqb; destruct s; cbn; destruct (dlen >=? 4); cbn; eexists; (split; [reflexivity|]); minv_solve.
+    + eexists; (split; [reflexivity|]); minv_solve.
+    + eexists; (split; [reflexivity|]); minv_solve.
+    + eexists; (split; [reflexivity|]); minv_solve.
+Qed.
+
+Lemma mon_trace_ok strict c v es :
+  (strict = true -> v = Repaired) ->
+  forall f m, MInv m f -> exists m', mon_run strict m (trace c v f es) = Some m'.
+Proof.
+  intros SV; induction es as [|e es IH]; intros f m I; cbn [trace].
+  - eexists; reflexivity.
+  - destruct (mon_step_ok strict c v f e m SV I) as (m' & R & I').
+    change (IEv e :: map IAct (outs (step c v f e)) ++ trace c v (step c v f e) es)
+      with ((IEv e :: map IAct (outs (step c v f e))) ++ trace c v (step c v f e) es).
+    rewrite mon_run_app, R. exact (IH _ _ I').
+Qed.
+
+Lemma MInv_init : MInv mon0 init.
+Proof. unfold MInv; cbn; repeat split; intros; try discriminate; destruct H; discriminate. Qed.
+
+Lemma both_acked_strict_repaired c es : both_acked true (trace c Repaired init es) = true.
+Proof.
+  unfold both_acked. destruct (mon_trace_ok true c Repaired es (fun _ => eq_refl) init mon0 MInv_init) as (m & ->).
+  reflexivity.
+Qed.
+
+Lemma both_acked_weak_any c v es : both_acked false (trace c v init es) = true.
+Proof.
+  unfold both_acked.
+  destruct (mon_trace_ok false c v es (fun H => ltac:(discriminate)) init mon0 MInv_init) as (m & ->).
+  reflexivity.
+Qed.
+
+(* ------------------------------------------------------------ 6. bounded retransmission *)
+
+Definition is_retrans (a : Act) : bool := is_scr a || is_str a.
+
+Lemma count_acts_cons_ev p e t : count_acts p (IEv e :: t) = count_acts p t.
+Proof. reflexivity. Qed.
+Lemma count_acts_app p a b : count_acts p (a ++ b) = (count_acts p a + count_acts p b)%nat.
+Proof. unfold count_acts. rewrite filter_app, app_length. reflexivity. Qed.
+
+(* one Timeout in a waiting state: with the counter at zero the negotiation/termination is given up,
+   otherwise exactly one request is retransmitted and the counter goes down by one *)
+Lemma timeout_step c v f :
+  waiting (st f) = true ->
+  let f' := step c v f ETimeout in
+  if restart f >? 0
+  then waiting (st f') = true /\ restart f' = restart f - 1 /\ armed f' = true /\
+       count_acts is_retrans (map IAct (outs f')) = 1%nat /\ count_acts is_tlf (map IAct (outs f')) = 0%nat
+  else (st f' = Closed \/ st f' = Stopped) /\ restart f' = restart f /\
+       count_acts is_retrans (map IAct (outs f')) = 0%nat /\ count_acts is_tlf (map IAct (outs f')) = 1%nat.
+Proof.
+  destruct f as [s i r fl l a o]; intros W; unfold step, timeout; cbn.
+  destruct (r >? 0); destruct s; try discriminate; cbn; auto 10.
+Qed.
+
+Lemma timeouts_end c v (n : nat) : forall f,
+  waiting (st f) = true -> restart f = Z.of_nat n ->
+  let ts := repeat ETimeout (S n) in
+  (st (run c v f ts) = Closed \/ st (run c v f ts) = Stopped) /\
+  count_acts is_retrans (trace c v f ts) = n /\
+  count_acts is_tlf (trace c v f ts) = 1%nat /\
+  (forall k, (k <= n)%nat -> waiting (st (run c v f (repeat ETimeout k))) = true).
+Proof.
+  induction n as [|n IH]; intros f W R; cbn zeta.
+  - pose proof (timeout_step c v f W) as T; cbn zeta in T. rewrite R in T. cbn in T.
+    destruct T as (A & _ & B & C).
+    cbn [repeat run trace]. rewrite app_nil_r, !count_acts_cons_ev. repeat split; auto.
+    intros k Hk. assert (k = 0%nat) by lia; subst; exact W.
+  - pose proof (timeout_step c v f W) as T; cbn zeta in T. rewrite R in T.
+    replace (Z.of_nat (S n) >? 0) with true in T by (symmetry; apply Z.gtb_lt; lia).
+    destruct T as (W' & R' & _ & B & C).
+    assert (R'' : restart (step c v f ETimeout) = Z.of_nat n) by lia.
+    specialize (IH _ W' R''); cbn zeta in IH. destruct IH as (I1 & I2 & I3 & I4).
+    change (repeat ETimeout (S (S n))) with (ETimeout :: repeat ETimeout (S n)).
+    cbn [run trace]. rewrite !count_acts_cons_ev, !count_acts_app, B, C, I2, I3.
+    repeat split; auto.
+    intros k Hk. destruct k as [|k]; [exact W|]. cbn [repeat run]. apply I4; lia.
+Qed.
+
+(* the restart counter stays within its bounds along every history *)
+Definition RInv (c : cfg) (f : fsm) : Prop :=
+  0 <= restart f <= Z.max (maxConf c) (maxTerm c) /\
+  (st f = Closing \/ st f = Stopping -> restart f <= maxTerm c) /\
+  (negotiating (st f) = true -> restart f <= maxConf c).
+
+Ltac rinv_solve :=
+  unfold RInv; cbn in *; repeat split; intros;
+  repeat match goal with H : _ \/ _ |- _ => destruct H end; try discriminate; try lia;
+  try (match goal with H : _ -> ?r <= _ |- _ => let X := fresh in assert (X := H ltac:(auto)); lia end);
+  try (match goal with H : _ -> ?r <= _, H' : _ -> ?r <= _ |- _ =>
+         let X := fresh in first [assert (X := H ltac:(auto)) | assert (X := H' ltac:(auto))]; lia end).
+
+Lemma rinv_step c v f e :
+  0 <= maxConf c -> 0 <= maxTerm c -> RInv c f -> RInv c (step c v f e).
+Proof.
+  intros HC HT (H1 & H2 & H3).
+  destruct f as [s i r fl l a o]; cbn in H1, H2, H3.
+  destruct e as [| | | | |code id k dlen].
+  1-4: destruct s, v; rinv_solve.
+  - unfold step, timeout; cbn. destruct (r >? 0) eqn:E; [apply Z.gtb_lt in E|];
+      destruct s; rinv_solve.
+  - unfold_events; cbn.
+    destruct (code_of code); destruct s; try destruct k; try destruct v; cbn; brk; cbn in *;
+      try discriminate; rinv_solve.
+Qed.
+
+Lemma rinv_run c v es : 0 <= maxConf c -> 0 <= maxTerm c ->
+  forall f, RInv c f -> RInv c (run c v f es).
+Proof.
+  intros HC HT; induction es as [|e es IH]; intros f I; [exact I|].
+  cbn. apply IH, rinv_step; assumption.
+Qed.
+
+Lemma rinv_init c : 0 <= maxConf c -> 0 <= maxTerm c -> RInv c init.
+Proof. intros; rinv_solve. Qed.
+
+Lemma bounded c v es :
+  0 <= maxConf c -> 0 <= maxTerm c ->
+  let f := run c v init es in
+  waiting (st f) = true ->
+  exists n : nat,
+    Z.of_nat n = restart f /\
+    Z.of_nat n <= (match st f with Closing | Stopping => maxTerm c | _ => maxConf c end) /\
+    let ts := repeat ETimeout (S n) in
+    (st (run c v f ts) = Closed \/ st (run c v f ts) = Stopped) /\
+    count_acts is_retrans (trace c v f ts) = n /\
+    count_acts is_tlf (trace c v f ts) = 1%nat.
+Proof.
+  intros HC HT f W.
+  pose proof (rinv_run c v es HC HT init (rinv_init c HC HT)) as (R1 & R2 & R3). fold f in R1, R2, R3.
+  exists (Z.to_nat (restart f)). rewrite Z2Nat.id by lia. split; [reflexivity|]. split.
+  - destruct (st f) eqn:S; try discriminate; try (apply R2; auto; fail); apply R3; reflexivity.
+  - destruct (timeouts_end c v (Z.to_nat (restart f)) f W) as (A & B & C & _).
+    + rewrite Z2Nat.id by lia; reflexivity.
+    + auto.
+Qed.
+
+(* ------------------------------------------------------------ 7. the restart timer runs while waiting *)
+
+Definition TInv (f : fsm) : Prop := waiting (st f) = true -> armed f = true.
+
+Lemma tinv_step c f e : TInv f -> TInv (step c Repaired f e).
+Proof.
+  unfold TInv; destruct f as [s i r fl l a o]; cbn; intros H.
+  destruct e as [| | | | |code id k dlen].
+  1-4: destruct s; cbn; intros; try discriminate; auto.
+  - unfold step, timeout; cbn. destruct (r >? 0); destruct s; cbn; intros; try discriminate; auto.
+  - unfold_events; cbn.
+    destruct (code_of code); destruct s; try destruct k; cbn; brk; cbn in *; intros;
+      try discriminate; auto.
+Qed.
+
+Lemma tinv_run c es : forall f, TInv f -> TInv (run c Repaired f es).
+Proof. induction es as [|e es IH]; intros f I; [exact I|]. cbn. apply IH, tinv_step, I. Qed.
+
+Lemma timer_armed c es :
+  waiting (st (run c Repaired init es)) = true -> armed (run c Repaired init es) = true.
+Proof. apply (tinv_run c es init). intros H; discriminate. Qed.
+
+(* ------------------------------------------------------------ 8. a new negotiation starts with a full counter *)
+
+(* histories in which the timer event only happens while the timer is pending (no late callback) *)
+Fixpoint timer_ok (c : cfg) (v : variant) (f : fsm) (es : list Ev) : bool :=
+  match es with
+  | [] => true
+  | e :: es => (match e with ETimeout => armed f | _ => true end) && timer_ok c v (step c v f e) es
+  end.
+
+Definition FInv (c : cfg) (f : fsm) : Prop :=
+  (st f = AckRcvd \/ st f = Opened -> restart f = maxConf c) /\ (st f = Opened -> armed f = false).
+
+Ltac finv_solve :=
+  unfold FInv; cbn in *; repeat split; intros;
+  repeat match goal with H : _ \/ _ |- _ => destruct H end; try discriminate;
+  repeat match goal with H : ?x = ?x -> _ |- _ => specialize (H eq_refl) end;
+  repeat match goal with H : ?x = ?x \/ _ -> _ |- _ => specialize (H (or_introl eq_refl)) end;
+  repeat match goal with H : _ \/ ?x = ?x -> _ |- _ => specialize (H (or_intror eq_refl)) end;
+  try congruence; auto.
+
+Lemma finv_step c f e :
+  FInv c f -> (e = ETimeout -> armed f = true) -> FInv c (step c Repaired f e).
+Proof.
+  destruct f as [s i r fl l a o]; cbn; intros (H & H') T; cbn in H, H'.
+  destruct e as [| | | | |code id k dlen].
+  1-4: destruct s; finv_solve.
+  - specialize (T eq_refl). unfold step, timeout; cbn. destruct (r >? 0); destruct s; finv_solve.
+  - unfold_events; cbn.
+    destruct (code_of code); destruct s; try destruct k; cbn; brk; cbn in *; try discriminate; finv_solve.
+Qed.
+
+Lemma finv_run c es : forall f, FInv c f -> timer_ok c Repaired f es = true -> FInv c (run c Repaired f es).
+Proof.
+  induction es as [|e es IH]; intros f I T; [exact I|]. cbn in *.
+  apply andb_true_iff in T; destruct T as (T1 & T2).
+  apply IH; [apply finv_step; [exact I|intros ->; exact T1]|exact T2].
+Qed.
+
+Definition starts_negotiation (s : St) : bool :=
+  match s with Starting | Closed | Stopped | Opened => true | _ => false end.
+
+Lemma fresh_negotiation_step c f e :
+  FInv c f -> starts_negotiation (st f) = true ->
+  existsb is_scr (outs (step c Repaired f e)) = true ->
+  restart (step c Repaired f e) = maxConf c /\ negotiating (st (step c Repaired f e)) = true.
+Proof.
+  destruct f as [s i r fl l a o]; cbn; intros (H & H') S; cbn in H, H'.
+  destruct e as [| | | | |code id k dlen].
+  1-4: destruct s; try discriminate; cbn; intros; try discriminate; auto.
+  - unfold step, timeout; cbn. destruct (r >? 0); destruct s; try discriminate; cbn; intros; try discriminate; auto.
+  - unfold_events; cbn.
+    destruct (code_of code); destruct s; try discriminate; try destruct k; cbn; brk; cbn in *; intros;
+      try discriminate; auto.
+Qed.
+
+Lemma fresh_negotiation c es e :
+  let f := run c Repaired init es in
+  timer_ok c Repaired init es = true ->
+  starts_negotiation (st f) = true ->
+  existsb is_scr (outs (step c Repaired f e)) = true ->
+  restart (step c Repaired f e) = maxConf c /\ negotiating (st (step c Repaired f e)) = true.
+Proof.
+  intros f T. apply fresh_negotiation_step. apply (finv_run c es init); [|exact T].
+  split; cbn; [intros [X|X]; discriminate|discriminate].
+Qed.
+
+(* ------------------------------------------------------------ 9. witnesses against today's code *)
+
+Definition RCRp := EInput 1 7 CGood 0.
+Definition RCA1 := EInput 2 1 CGood 0.
+Definition RXJ := EInput 7 9 CGood 0.
+Definition RTRe := EInput 5 9 CGood 0.
+Definition RTAe := EInput 6 9 CGood 0.
+
+Definition dwit : list (list Ev * Ev) :=
+  [ ([EOpen; EUp; EClose], EOpen);
+    ([EOpen; EUp; RCRp], RCA1);
+    ([EOpen; EUp; RCRp], EInput 3 1 CGood 0);
+    ([EOpen; EUp; RCA1], RTRe);
+    ([EOpen; EUp; RCRp], RTRe);
+    ([EOpen; EUp; RCA1], RTAe);
+    ([EOpen; EUp; RCRp], RTAe);
+    ([EUp], RXJ);
+    ([EOpen; EUp; RXJ], RXJ);
+    ([EOpen; EUp; EClose], RXJ);
+    ([EOpen; EUp; RCRp; RCA1; RXJ], RXJ) ].
+
+Definition refutes (w : list Ev * Ev) : bool :=
+  let f := run default_cfg Defective init (fst w) in
+  negb (conformsb f (snd w) (step default_cfg Defective f (snd w))).
+Definition wit_cell (w : list Ev * Ev) : St * option REv :=
+  let f := run default_cfg Defective init (fst w) in (st f, classify f (snd w)).
+
+Lemma dwit_refute :
+  forallb refutes dwit = true /\
+  map wit_cell dwit = map (fun p => (fst p, Some (snd p))) bad_cells.
+Proof. split; vm_compute; reflexivity. Qed.
+
+Lemma table_defective_refuted :
+  forall cell, In cell bad_cells ->
+  exists es e, let f := run default_cfg Defective init es in
+    st f = fst cell /\ classify f e = Some (snd cell) /\
+    conformsb f e (step default_cfg Defective f e) = false.
+Proof.
+  intros cell H. cbn in H.
+  repeat (destruct H as [<-|H];
+    [ first
+      [ exists [EOpen; EUp; EClose], EOpen; vm_compute; repeat split; reflexivity
+      | exists [EOpen; EUp; RCRp], RCA1; vm_compute; repeat split; reflexivity
+      | exists [EOpen; EUp; RCRp], (EInput 3 1 CGood 0); vm_compute; repeat split; reflexivity
+      | exists [EOpen; EUp; RCA1], RTRe; vm_compute; repeat split; reflexivity
+      | exists [EOpen; EUp; RCRp], RTRe; vm_compute; repeat split; reflexivity
+      | exists [EOpen; EUp; RCA1], RTAe; vm_compute; repeat split; reflexivity
+      | exists [EOpen; EUp; RCRp], RTAe; vm_compute; repeat split; reflexivity
+      | exists [EUp], RXJ; vm_compute; repeat split; reflexivity
+      | exists [EOpen; EUp; RXJ], RXJ; vm_compute; repeat split; reflexivity
+      | exists [EOpen; EUp; EClose], RXJ; vm_compute; repeat split; reflexivity
+      | exists [EOpen; EUp; RCRp; RCA1; RXJ], RXJ; vm_compute; repeat split; reflexivity ] | ]).
+  contradiction.
+Qed.
+
+(* Terminate-Request in Opened: Stopping without a running timer *)
+Lemma timer_armed_refuted :
+  exists es, let f := run default_cfg Defective init es in
+    waiting (st f) = true /\ armed f = false.
+Proof. exists [EOpen; EUp; RCRp; RCA1; RTRe]. vm_compute. split; reflexivity. Qed.
+
+(* strict both-acks: the layer comes up on an acknowledgement older than the peer's Terminate-Request *)
+Lemma both_acked_strict_refuted :
+  exists es, both_acked true (trace default_cfg Defective init es) = false.
+Proof. exists [EOpen; EUp; RCA1; RTRe; RCRp]. vm_compute. reflexivity. Qed.
+
+(* missing irc: a renegotiation started from Opened has no retransmission left *)
+Lemma fresh_negotiation_refuted :
+  exists c es e, let f := run c Defective init es in
+    0 < maxConf c /\ timer_ok c Defective init (es ++ [e; ETimeout]) = true /\ st f = Opened /\
+    existsb is_scr (outs (step c Defective f e)) = true /\
+    restart (step c Defective f e) = 0 /\
+    st (run c Defective f [e; ETimeout]) = Stopped /\
+    count_acts is_retrans (trace c Defective (step c Defective f e) [ETimeout]) = 0%nat.
+Proof.
+  exists (mkCfg 2 1), [EOpen; EUp; RCRp; ETimeout; ETimeout; EInput 2 3 CGood 0], RCRp.
+  vm_compute. repeat split; reflexivity.
+Qed.
+
+(* ------------------------------------------------------------ 10. non-vacuity *)
+
+Definition happy : list Ev := [EOpen; EUp; RCRp; RCA1].
+Lemma happy_opens :
+  st (run default_cfg Repaired init happy) = Opened /\
+  count_acts (fun a => match a with Tlu => true | _ => false end) (trace default_cfg Repaired init happy) = 1%nat /\
+  alternates false (trace default_cfg Repaired init (happy ++ [RTRe; ETimeout; RCRp; EInput 2 2 CGood 0; EDown])) = true /\
+  count_acts (fun a => match a with Tlu | Tld => true | _ => false end)
+     (trace default_cfg Repaired init (happy ++ [RTRe; ETimeout; RCRp; EInput 2 2 CGood 0; EDown])) = 4%nat.
+Proof. vm_compute. repeat split; reflexivity. Qed.
+
+Lemma bounded_nonvac :
+  let f := run default_cfg Repaired init [EOpen; EUp] in
+  waiting (st f) = true /\ restart f = 10 /\
+  st (run default_cfg Repaired f (repeat ETimeout 11)) = Stopped /\
+  count_acts is_retrans (trace default_cfg Repaired f (repeat ETimeout 11)) = 10%nat.
+Proof. vm_compute. repeat split; reflexivity. Qed.
+
+Lemma fresh_nonvac :
+  let f := run (mkCfg 2 1) Repaired init [EOpen; EUp; RCRp; ETimeout; ETimeout; EInput 2 3 CGood 0] in
+  timer_ok (mkCfg 2 1) Repaired init [EOpen; EUp; RCRp; ETimeout; ETimeout; EInput 2 3 CGood 0] = true /\
+  st f = Opened /\ existsb is_scr (outs (step (mkCfg 2 1) Repaired f RCRp)) = true /\
+  restart (step (mkCfg 2 1) Repaired f RCRp) = 2.
+Proof. vm_compute. repeat split; reflexivity. Qed.
+
+Lemma timer_nonvac :
+  let f := run default_cfg Repaired init [EOpen; EUp; RCRp; RCA1; RTRe] in
+  st f = Stopping /\ armed f = true /\ st (step default_cfg Repaired f ETimeout) = Stopped.
+Proof. vm_compute. repeat split; reflexivity. Qed.
